@@ -38,6 +38,10 @@ def run(tier, seed, t0):
     for i in range(2):
         jobs.append(Job("asan-substitute-%d" % i, "drv_c18", "asan", "spqlios-fma",
                         ["--mode", "substitute", "--seed", seed, "--shard", i, "--nshards", 2], timeout=3600, meta={"leaks": False}))
+    if not thorough:     # title-line corruptions (incl. newlines and NULs inside a title) under ASan at the quick tier too
+        for i in range(4):
+            jobs.append(Job("asan-corrupt-titles-%d" % i, "drv_c18", "asan", "spqlios-fma",
+                            ["--mode", "corrupt", "--titles_only", 1, "--seed", seed, "--shard", i, "--nshards", 4], timeout=7200, meta={"leaks": False}))
     if thorough:
         for i in range(8):
             jobs.append(Job("asan-corrupt-%d" % i, "drv_c18", "asan", "spqlios-fma",
